@@ -121,6 +121,14 @@ CHECKS.update({
             "DESIGN.md section 5 C09"),
 })
 
+CHECKS.update({
+    "C20": ("other",
+            "AST-lifted current source of wrap_line_base/pad_python/pad_fortran (len -> symbolic length) run on abstract strings whose token lengths, level and width are z3 integers; per multi-token line a z3 validity query (fits the width); concrete enumeration of the real tokenisation on character strings and generated lines",
+            "Part 1 (solver): for 1..5 tokens (thorough 6) of ANY lengths 1..200, any level 0..8 and width 8..132, every layout path of the real wrapping algorithm keeps token order, ends non-final lines with the continuation marker as last character, and z3 proves every line with more than one token fits the width. Part 2 (bounded enumeration, labelled): the real tokeniser on all lexable strings of <=6 characters over an adversarial alphabet and on every line the generators emit for the corpus at forcing widths: quoted strings unchanged and unsplit; wrapped Python parses to the same AST.",
+            "Trusted: z3, the AStr rope model, the quoted-region scanner oracle. The tokenizer is a stub in part 1.",
+            "DESIGN.md section 5 C20"),
+})
+
 NOT_APPLICABLE = {
 }
 
